@@ -1,0 +1,93 @@
+//! Verification hook (feature `verif-hooks`, never enabled in production):
+//! a linear association list offering exactly the part of the
+//! `std::collections::HashMap` interface that `IpDefragPool` uses. Keys are
+//! compared with their real `Eq` implementation.
+use std::vec::Vec;
+
+#[derive(Debug, Clone)]
+pub struct HashMap<K, V> {
+    items: Vec<(K, V)>,
+}
+
+pub enum Entry<'a, K, V> {
+    Occupied(OccupiedEntry<'a, K, V>),
+    Vacant(VacantEntry<'a, K, V>),
+}
+
+pub struct OccupiedEntry<'a, K, V> {
+    map: &'a mut HashMap<K, V>,
+    index: usize,
+}
+
+pub struct VacantEntry<'a, K, V> {
+    map: &'a mut HashMap<K, V>,
+    key: K,
+}
+
+impl<K: Eq, V> HashMap<K, V> {
+    pub fn new() -> HashMap<K, V> {
+        HashMap { items: Vec::new() }
+    }
+
+    pub fn len(&self) -> usize {
+        self.items.len()
+    }
+
+    pub fn is_empty(&self) -> bool {
+        self.items.is_empty()
+    }
+
+    pub fn entry(&mut self, key: K) -> Entry<'_, K, V> {
+        let mut index = None;
+        for (i, it) in self.items.iter().enumerate() {
+            if it.0 == key {
+                index = Some(i);
+                break;
+            }
+        }
+        match index {
+            Some(index) => Entry::Occupied(OccupiedEntry { map: self, index }),
+            None => Entry::Vacant(VacantEntry { map: self, key }),
+        }
+    }
+
+    pub fn iter(&self) -> impl Iterator<Item = (&K, &V)> {
+        self.items.iter().map(|it| (&it.0, &it.1))
+    }
+
+    pub fn drain(&mut self) -> std::vec::Drain<'_, (K, V)> {
+        self.items.drain(..)
+    }
+}
+
+impl<K: Eq, V> Default for HashMap<K, V> {
+    fn default() -> Self {
+        Self::new()
+    }
+}
+
+impl<K: Eq, V> FromIterator<(K, V)> for HashMap<K, V> {
+    fn from_iter<T: IntoIterator<Item = (K, V)>>(iter: T) -> Self {
+        HashMap {
+            items: iter.into_iter().collect(),
+        }
+    }
+}
+
+impl<'a, K, V> OccupiedEntry<'a, K, V> {
+    pub fn get_mut(&mut self) -> &mut V {
+        &mut self.map.items[self.index].1
+    }
+
+    pub fn remove(self) -> V {
+        self.map.items.swap_remove(self.index).1
+    }
+}
+
+impl<'a, K, V> VacantEntry<'a, K, V> {
+    pub fn insert(self, value: V) -> &'a mut V {
+        self.map.items.push((self.key, value));
+        let last = self.map.items.len() - 1;
+        &mut self.map.items[last].1
+    }
+}
